@@ -127,7 +127,8 @@ func (c c16case) String() string { return c.Caller + "/" + c.Msg + "/" + c.State
 
 func c16Table() []c16case {
 	var out []c16case
-	for _, caller := range []string{"peer", "peer-not-in-generation", "client-with-all-permissions", "empty", "unknown", "peer-name-uppercase", "peer-name-with-suffix"} {
+	for _, caller := range []string{"peer", "peer-not-in-generation", "client-with-all-permissions", "empty", "unknown", "peer-name-uppercase", "peer-name-with-suffix",
+		"peer-name-as-host-of-a-domain", "peer-name-with-trailing-dot", "peer-name-prefix", "peer-name-with-port", "peer-name-with-space"} {
 		for _, msg := range []string{"prepare", "execute", "contribute", "commit", "abort"} {
 			for _, st := range []string{"none", "prepared", "executed", "committed", "aborted", "expired"} {
 				out = append(out, c16case{caller, msg, st})
@@ -229,7 +230,8 @@ func runDKGCallers(t *testing.T, rc *RunCtx) {
 		time.Sleep(timeout + time.Second)
 		rc.Stats.Inc("sim_time_ms", int64((timeout+time.Second)/time.Millisecond))
 	}
-	caller := map[string]string{"peer": parts[2].Name, "peer-not-in-generation": outsider.Name, "client-with-all-permissions": "client1", "empty": "", "unknown": "nobody", "peer-name-uppercase": "SIGNER-02", "peer-name-with-suffix": "signer-02x"}[tc.Caller]
+	caller := map[string]string{"peer": parts[2].Name, "peer-not-in-generation": outsider.Name, "client-with-all-permissions": "client1", "empty": "", "unknown": "nobody", "peer-name-uppercase": "SIGNER-02", "peer-name-with-suffix": "signer-02x",
+		"peer-name-as-host-of-a-domain": "signer-02.clients.example.com", "peer-name-with-trailing-dot": "signer-02.", "peer-name-prefix": "signer-0", "peer-name-with-port": "signer-02:9001", "peer-name-with-space": " signer-02"}[tc.Caller]
 	isPeer := tc.Caller == "peer"
 
 	// A contribution that would verify at the target: a dishonest-but-consistent one for the target's id.
